@@ -24,22 +24,25 @@ CLAIMS = {
         "text": "Bounded model checking of the real server path Request::parse -> Request::get_reply -> FrameWriter "
                 "(MBAP and RTU) against a reference Modbus server written from the protocol document: byte-exact reply "
                 "(tx/unit echo, length, LSB-first bits, big-endian registers, echoed writes, handler-raised exception), "
-                "request validity for EVERY payload of 0..252 bytes (lengths, ranges, coil values, 2000/125/1968/123 limits), "
+                "request validity for EVERY payload of 0..252 bytes (lengths, ranges, coil values, the 2000/125 read limits, the "
+                "1968-coil write limit; more than 123 registers cannot be framed in 253 bytes and is rejected by length), "
                 "the 256-entry function-code table and all exception frames. Reply construction is bounded by quantity "
                 "(<=16 bits, <=6 registers, <=2 data bytes of coils, <=3 written registers in the quick tier). The writer "
                 "buffer is arbitrary residue, so each query is one step from an arbitrary writer state (sequences). "
-                "Whole-session behaviour (one reply per addressed request, silence otherwise) is decided by the glue "
-                "harnesses that execute SessionTask::handle_frame whole with MAX_ADU_LENGTH=13 (hook H3).",
+                "QUICK tier = these kernels only. Whole-session behaviour (one reply per addressed request, silence otherwise) is "
+                "decided by the glue harnesses that execute SessionTask::handle_frame whole with MAX_ADU_LENGTH=13 (hook H3); for "
+                "C01 they run in the THOROUGH tier (they are the quick tier of C17 and C08).",
         "note": "Not decided: live TCP/pty sessions; larger quantities than the stated bounds (the limits themselves are "
                 "decided for all payload sizes by the parse-validity queries). Byte-count field of write-multiple requests "
                 "is a don't-care when the payload length is right (the property lists 'wrong length for its quantity').",
         "design": "DESIGN.md 5.1",
     },
     "C02": {
-        "text": "Same kernel and glue queries as C01 with an instrumented handler: a read queries exactly start, start+1, .. "
-                "in order, once each, stopping at the first exception; a write invokes the matching write handler exactly "
-                "once with the decoded range/index and values (symbolic probe of every item of the lazy iterator); "
-                "rejected, unknown-function, empty, wrong-unit and denied requests invoke nothing.",
+        "text": "Same kernel queries as C01 with an instrumented handler: a read queries exactly start, start+1, .. in order, "
+                "once each, stopping at the first exception; a write invokes the matching write handler exactly once with the "
+                "decoded range/index and values (symbolic probe of every item of the lazy iterator); a request rejected by the "
+                "parser invokes nothing. THOROUGH tier adds the whole-session glue queries: unknown-function, empty, wrong-unit "
+                "and denied requests invoke nothing (those queries are the quick tier of C17 and C08).",
         "note": "Bounds as C01. Handler functions are modelled as deterministic symbolic tables that do not panic.",
         "design": "DESIGN.md 5.2",
     },
@@ -105,8 +108,9 @@ CLAIMS = {
     },
     "C07": {
         "text": "Kani's built-in checks (arithmetic overflow with dev-profile semantics, out-of-bounds, unwrap/expect, "
-                "unreachable, division by zero) over every query whose input is peer-controlled bytes (all C01-C06 kernels, "
-                "the glue harnesses, the iterators from every validated state). A failing built-in check inside repository "
+                "unreachable, division by zero) over the kernel queries whose input is peer-controlled bytes (C01 request "
+                "parsing and replies, C04 write replies, C05 parser / buffer steps, the iterators from every validated state; "
+                "the quick tier runs a representative subset, the thorough tier all of them). A failing built-in check inside repository "
                 "code in any of those queries is attributed to C07.",
         "note": "Not decided: 'the task and its other sessions remain usable' and shutdown responsiveness (" + ASYNC + "). "
                 "Display/Loggable bodies behind tracing macros are not executed (tracing is a no-op shim in solver runs).",
@@ -138,8 +142,8 @@ CLAIMS = {
     "C10": {
         "text": "Exactly-once completion of the five promise types under every sequence of <=3 success/failure attempts "
                 "followed by drop (first wins, none => Shutdown); handle_response never completes a request it rejects and the "
-                "caller's single fail() completes it once with the error that occurred (all eight kinds, from the C04 "
-                "queries); oneshot flavour; send/recv errors on a dead task map to Shutdown; which errors end a session.",
+                "caller's single fail() completes it once with the error that occurred (the four write kinds, from the C04 "
+                "reply queries); oneshot flavour; send/recv errors on a dead task map to Shutdown; which errors end a session.",
         "note": "NOT decided: interleavings of replies, deadlines, enable/disable, shutdown, handle drops and task abort (" + ASYNC + ").",
         "design": "DESIGN.md 5.10",
     },
@@ -205,8 +209,8 @@ CLAIMS = {
         "design": "DESIGN.md 5.18",
     },
     "C20": {
-        "text": "Every C01-C06 kernel and glue query takes a SYMBOLIC DecodeLevel (all 36) and is compared with a "
-                "level-independent reference, so any influence of the level on bytes, results or handler calls is a "
+        "text": "Every C01, C03, C04 and C05 kernel query takes a SYMBOLIC DecodeLevel (all 36) and is compared with a "
+                "level-independent reference (the whole-session glue queries use a fixed level to fit memory), so any influence of the level on bytes, results or handler calls is a "
                 "counterexample. Frame conditions: SessionTask::apply_command(ChangeDecoding) and "
                 "ClientLoop::change_setting(DecodeLevel) change nothing but the level (enabled flag, tx id, timeout counter "
                 "untouched).",
